@@ -519,7 +519,7 @@ func c13Run(c *fw.Ctx) {
 	// in (prelude USER u, PASS p), so that the depth bound is spent on TRANSACTION-state commands
 	// and external events (e.g. DELE 1, DELE 2, external delete of 1, QUIT).
 	for _, be := range []string{"mem", "file"} {
-		for _, nm := range fw.Pick(c, []int{3}, []int{3, 2}) {
+		for _, nm := range fw.Pick(c, []int{3, 1}, []int{3, 1, 2}) { // 1: "every message of the snapshot is marked" is two commands away
 			c13Explore(c, be, nm, true)
 		}
 	}
